@@ -85,11 +85,16 @@ func (g *gen) genMap(typ *types.Map) error {
 	typeStr := g.TypeString(typ.Key())
 	p.P("")
 	p.P("// %s returns the union of two maps, with respect to the keys.", name)
-	p.P("// It does this by adding the keys to the first map.")
+	p.P("// It does this by adding the keys to the first map, or to a new map when the first map is nil.")
 	p.P("//")
 	p.P("// Deprecated: In favour of generics.")
 	p.P("func %s(union, that map[%s]struct{}) map[%s]struct{} {", name, typeStr, typeStr)
 	p.In()
+	p.P("if union == nil {")
+	p.In()
+	p.P("union = make(map[%s]struct{}, len(that))", typeStr)
+	p.Out()
+	p.P("}")
 	p.P("for k := range that {")
 	p.In()
 	p.P("union[k] = struct{}{}")
